@@ -143,6 +143,33 @@ func runC10(ctx *core.Ctx) {
 	ctx.Cases("c10", n, 4*workers(), func(i int, r *rand.Rand) {
 		execC10(ctx, genEvSession(core.CaseRef{Stream: "c10", Index: i}, r))
 	})
+	// back-pressure: the expiry goroutine is parked in a blocking send (window output buffer 1, slow sink) while
+	// a dense in-order burst advances the watermark far more than 100 times, then the source goes quiet: every
+	// session must still be delivered, whatever the feeding speed
+	nbp := ctx.N(2, 24)
+	ctx.Cases("c10bp", nbp, 8, func(i int, r *rand.Rand) {
+		c := &evCase{CaseRef: core.CaseRef{Stream: "c10bp", Index: i}, Kind: "session", SizeMs: 1000, Pattern: "backpressure", Feed: "burst", Grouped: true}
+		c.WinOut = 1
+		c.SinkDelayMs = 150 + r.Intn(200)
+		id := 0
+		t := int64(5000)
+		for j := 0; j < 5; j++ { // a few single-event sessions whose delivery holds the expiry goroutine up
+			id++
+			c.Rows = append(c.Rows, evRow{ID: id, TS: t, K: "a", V: r.Intn(50)})
+			t += 3000
+		}
+		for j, n := 0, 150+r.Intn(150); j < n; j++ { // one long session, every row a new maximum
+			id++
+			t += 20 + int64(r.Intn(400))
+			c.Rows = append(c.Rows, evRow{ID: id, TS: t, K: "b", V: r.Intn(50)})
+		}
+		id++
+		t += 5000
+		c.Rows = append(c.Rows, evRow{ID: id, TS: t, K: "c", V: 1})
+		c.Tail = t + 10*c.SizeMs
+		c.buildSQL()
+		execC10(ctx, c)
+	})
 	for k, v := range sched.Hits() {
 		ctx.Count("hook_hits."+k, v)
 	}
